@@ -170,6 +170,17 @@ pub fn replay_mode(mode: Mode, case: &Case) -> Result<Verdict, String> {
             None => Ok(()),
         });
     }
+    if kind == "histseq" {
+        let r = Run::new(mode.id(), crate::engine::Tier::Quick, 0);
+        let syms = history_symbols(&r);
+        let mins: Vec<TT> = syms.iter().map(|(g, _, t)| orbit_min(t, *g).0).collect();
+        let seq: Vec<usize> = case.get("seq")?.split('.').map(|x| x.parse::<usize>().unwrap_or(0)).collect();
+        if seq.iter().any(|k| *k >= syms.len()) {
+            return Err("history symbol out of range".into());
+        }
+        let res = std::thread::scope(|sc| sc.spawn(|| run_history::<volute::Lut>(mode, &syms, &mins, &seq, st)).join().unwrap_or_else(|_| Err((0, ("history thread returns".to_string(), "panic".to_string())))));
+        return Ok(res.map_err(|(_, v)| v));
+    }
     let g = Grp::from_name(case.get("g")?).ok_or("bad group")?;
     let f = TT::from_words(n, &case.words("f")?).ok_or("f malformed")?;
     let gen = case.get("gen")?.parse::<usize>().map_err(|e| e.to_string())?;
@@ -177,6 +188,14 @@ pub fn replay_mode(mode: Mode, case: &Case) -> Result<Verdict, String> {
         match (mode, kind) {
             (Mode::C04, "canon") => check_min::<L>(f, g, None).map(|_| ()),
             (Mode::C04, "meta") => check_meta::<L>(f, g, gen),
+            (Mode::C05, "history") => {
+                // the recorded input within its repeated-call history f, !f, !f, f
+                let nf = f.not();
+                for x in [f, &nf, &nf, f, &nf] {
+                    check_cert::<L>(x, g)?;
+                }
+                Ok(())
+            }
             (Mode::C05, _) => check_cert::<L>(f, g).map(|_| ()),
             _ => Err(("harness".into(), "bad kind".into())),
         }
@@ -211,6 +230,7 @@ fn report(l: &mut Local, mode: Mode, st: bool, f: &TT, g: Grp, kind: &str, gen: 
 /// All transitions from one function for one group.
 fn explore_f<L: Tab>(l: &mut Local, mode: Mode, st: bool, f: &TT, g: Grp, meta: bool, known_min: Option<&TT>) {
     l.states += 1;
+    let extra = meta || f.n <= 4;
     let hf = hash_words(&f.w);
     match mode {
         Mode::C04 => {
@@ -244,6 +264,30 @@ fn explore_f<L: Tab>(l: &mut Local, mode: Mode, st: bool, f: &TT, g: Grp, meta: 
                 l.tr(hf, g as u64, hash_words(&rep.w));
                 l.nontrivial += (rep != *f) as u64;
                 l.outcome(if rep == *f { "input-already-representative" } else { "input-not-representative" });
+                // inputs one generator away from the representative (the minimum is then met at the
+                // very beginning or the very end of the walk), and a repeated-call history
+                // f, !f, !f, f on this thread (results must not depend on earlier calls)
+                if extra {
+                    let mut inputs: Vec<(TT, &'static str)> = Vec::new();
+                    for (p, m) in group::generators(f.n, g) {
+                        inputs.push((apply(&rep, &p, m), "generator-image"));
+                    }
+                    let nf = f.not();
+                    inputs.push((nf.clone(), "history"));
+                    inputs.push((nf, "history"));
+                    inputs.push((f.clone(), "history"));
+                    for (x, kind) in inputs {
+                        l.states += 1;
+                        match check_cert::<L>(&x, g) {
+                            Ok(r2) => l.tr(hash_words(&x.w), g as u64 + 10, hash_words(&r2.unwrap_or_else(|| x.clone()).w)),
+                            Err(v) => {
+                                l.transitions += 1;
+                                l.validated += 1;
+                                report(l, mode, st, &x, g, kind, 0, v);
+                            }
+                        }
+                    }
+                }
                 if rep != *f {
                     // the representative itself as a new input
                     l.states += 1;
@@ -625,6 +669,75 @@ fn symmetric_section(run: &Run, n: usize) {
     });
 }
 
+/// Call histories mixing sizes and groups on ONE thread (each history on its own fresh
+/// thread): a canonization must return the same representative and a valid certificate
+/// whatever was canonized before on that thread.
+fn history_symbols(run: &Run) -> Vec<(Grp, usize, TT)> {
+    let mut v = Vec::new();
+    for n in [3usize, 7, 8] {
+        let pats = alpha::word_patterns(n, run.seed, 0);
+        let t = TT::pointwise(&pats[pats.len() - 1], &TT::from_fn(n, |m| (m >> (n - 1)) & 1 != 0 || m % 3 == 0), |a, b| a && b);
+        for g in Grp::ALL {
+            if n == 8 && g == Grp::Npn && !run.thorough() {
+                continue;
+            }
+            v.push((g, n, t.clone()));
+        }
+    }
+    v
+}
+
+fn run_history<L3: Tab>(mode: Mode, syms: &[(Grp, usize, TT)], mins: &[TT], seq: &[usize], st: bool) -> Result<(), (usize, (String, String))> {
+    let _ = std::marker::PhantomData::<L3>;
+    for (pos, k) in seq.iter().enumerate() {
+        let (g, n, t) = &syms[*k];
+        fn one<L: Tab>(mode: Mode, t: &TT, g: Grp, min: &TT) -> Verdict {
+            match mode {
+                Mode::C04 => check_min::<L>(t, g, Some(min)).map(|_| ()),
+                Mode::C05 => check_cert::<L>(t, g).map(|_| ()),
+            }
+        }
+        let v = for_type!(st, *n, one(mode, t, *g, &mins[*k]));
+        if let Err(e) = v {
+            return Err((pos, e));
+        }
+    }
+    Ok(())
+}
+
+fn histories(run: &Run, mode: Mode) {
+    let syms = history_symbols(run);
+    let mins: Vec<TT> = crate::engine::par_map(&syms, |(g, _, t)| orbit_min(t, *g).0);
+    let k = syms.len() as u64;
+    let total = k * k * k;
+    run.section(&format!("{} HISTORIES: all {} call sequences of length 3 over {} (group, size) symbols (sizes 3, 7, 8), each on a fresh thread, both types", mode.id(), total, k), false, "results must not depend on what was canonized earlier on the thread (per-thread caches of sequences or results)", total, 1, |r, l| {
+        for idx in r {
+            let seq = [(idx / (k * k)) as usize, ((idx / k) % k) as usize, (idx % k) as usize];
+            for st in [false, true] {
+                let (s2, m2) = (&syms, &mins);
+                let res = std::thread::scope(|sc| sc.spawn(move || run_history::<volute::Lut>(mode, s2, m2, &seq, st)).join().unwrap_or_else(|_| Err((0, ("history thread returns".to_string(), "panic outside the subject".to_string())))));
+                l.states += 1;
+                l.transitions += 3;
+                l.validated += 3;
+                match res {
+                    Ok(()) => {
+                        l.nontrivial += (seq[0] != seq[2] || seq[1] != seq[2]) as u64;
+                        l.digest ^= crate::engine::mix3(idx, st as u64, 3);
+                    }
+                    Err((pos, v)) => {
+                        let names: Vec<String> = seq.iter().map(|i| format!("{}{}", syms[*i].0.name(), syms[*i].1)).collect();
+                        let sig = format!("{}/history/{}", mode.id(), syms[seq[pos]].0.name());
+                        l.violation(format!("hist|{}|{}|{}", names.join("-"), st as u8, pos), &sig, format!("ty={};n={};g={};f={};kind=histseq;gen=0;seq={}", tyname(st), syms[seq[pos]].1, syms[seq[pos]].0.name(), fmt_words(&syms[seq[pos]].2.w), seq.iter().map(|x| x.to_string()).collect::<Vec<_>>().join(".")), format!("[call {} of the history {}] {}", pos + 1, names.join(", "), v.0), v.1);
+                    }
+                }
+            }
+            if idx == total / 2 {
+                l.sample(J::s(format!("history {:?} over symbols {:?}", seq, syms.iter().map(|s| format!("{}{}", s.0.name(), s.1)).collect::<Vec<_>>())));
+            }
+        }
+    });
+}
+
 pub fn run_mode(run: &Run, mode: Mode) {
     if let Err(e) = group::self_check() {
         run.machinery(format!("group model self-check: {}", e));
@@ -666,8 +779,11 @@ pub fn run_mode(run: &Run, mode: Mode) {
         vec![(6, Grp::P, 1500, 50), (6, Grp::N, 1500, 50), (6, Grp::Npn, 1000, 100), (7, Grp::P, 400, 40), (7, Grp::N, 600, 40), (7, Grp::Npn, 96, 12), (8, Grp::P, 64, 16), (8, Grp::N, 200, 25), (8, Grp::Npn, 16, 4)]
     };
     for (n, g, count, meta) in plan {
-        family_section(run, mode, n, g, count, if mode == Mode::C04 { meta } else { 0 });
+        // C04: metamorphic generator transitions every `meta`-th member; C05: generator images of the
+        // representative and the repeated-call history on every 4th member (every 2nd for n = 8)
+        family_section(run, mode, n, g, count, if mode == Mode::C04 { meta } else if n >= 8 { 2 } else { 4 });
     }
+    histories(run, mode);
     if mode == Mode::C05 {
         for n in 0..=8usize {
             symmetric_section(run, n);
